@@ -6,7 +6,7 @@ use crate::entry::{Call, Entry, VALVE_GAMES};
 use crate::gen;
 use crate::harness::run_call;
 use crate::models::valve::{self as vm, Split, ValveServer, ValveState};
-use crate::prop::{CaseOut, Prop, Tier};
+use crate::prop::{CaseOut, Prop, Tier, Violation};
 use crate::tape::{Tape, CFG};
 use crate::world::{Proto, World};
 use gamedig::protocols::types::GatherToggle;
@@ -289,6 +289,68 @@ impl Prop for C02 {
             }
         }
         out.absorb(&run.world);
+        // ---- fault configuration, kept apart from the fault-free one above: one late duplicate. One case
+        // in four whose replies all fit single datagrams (duplicated fragments belong to C08) is run again
+        // with the n-th datagram of the server delivered a second time 1.5 to 6.5 one-way latencies after
+        // its first arrival, so that it lands in a later step of the exchange (after the next request's
+        // challenge, say). The server still answers as specified; the oracle is relaxed narrowly: the query
+        // may fail, and a players or rules section may be absent, but nothing it returns may differ from the
+        // server's state.
+        let mut dup_schedule: Option<Vec<String>> = None;
+        if out.violations.is_empty() && run.crash.is_none() && !encc.contains("split") && _idx % 4 == 3 {
+            let (mut w, sidx3) = build(Tape::generate(_idx ^ 0x6c61_7465_6475_70), &enc);
+            // the model's habit of answering a wrong echo with a FRESH challenge makes two request chains set
+            // going by a duplicated challenge invalidate each other for ever (the client's challenge loop is
+            // unbounded); real servers keep one challenge per client address for a while, so this
+            // configuration uses that behaviour
+            if let Some(s) = w.server_mut::<ValveServer>(sidx3) {
+                s.stable_challenge = true;
+            }
+            let n = (_idx / 4) % 8;
+            let k = (_idx / 32) % 6 + 1;
+            let lat = w.net.min_latency.max(1);
+            w.net.late_dup = Some((n, k * lat + lat / 2));
+            let mut run3 = run_call(w, &call);
+            if let Some(Ok(crate::entry::Resp::Valve(r))) = &mut run3.result {
+                *r = vm::normalise_response(r.clone());
+            }
+            let fired = run3.world.stats.faults.get("late_dup_reply").copied().unwrap_or(0) > 0;
+            if fired {
+                out.probe("late_duplicate_delivered");
+            }
+            if let Some(c) = &run3.crash {
+                out.violate(super::crash_violation(&format!("{family}|late-duplicate|"), c));
+            } else if let Some(Ok(r)) = &run3.result {
+                let obs = r.to_json();
+                let mut exp = expected.clone();
+                for key in ["players", "rules", "players_details"] {
+                    let absent = match obs.get(key) {
+                        Some(Value::Null) => true,
+                        Some(Value::Array(a)) => a.is_empty(),
+                        Some(Value::Object(o)) => o.is_empty(),
+                        _ => false,
+                    };
+                    if absent && exp.get(key).is_some() {
+                        exp[key] = obs[key].clone();
+                        out.probe("late_duplicate_cost_a_section");
+                    }
+                }
+                if let Some((path, e, o)) = crate::harness::json_diff(&exp, &obs) {
+                    out.violate(Violation::new(
+                        format!("{family}|late-duplicate|{}", crate::harness::path_class(&path)),
+                        format!("valve query with one late duplicate of datagram {n} of the server: field {path} differs from what the server sent (a failed or missing section would be allowed, a wrong one is not)"),
+                        e,
+                        o,
+                    ));
+                }
+            } else if fired {
+                out.probe("late_duplicate_failed_the_query");
+            }
+            out.absorb(&run3.world);
+            if detail && !out.violations.is_empty() {
+                dup_schedule = Some(run3.world.render_history(200));
+            }
+        }
         out.distinct_key = out.log_hash;
         if detail {
             out.sample = Some(json!({
@@ -300,6 +362,10 @@ impl Prop for C02 {
                 "result": describe_result(&run.result, &run.crash),
             }));
             out.schedule = run.world.render_history(200);
+            if let Some(d) = dup_schedule {
+                out.schedule.push("---- the same scenario with one late duplicate ----".to_string());
+                out.schedule.extend(d);
+            }
         }
         let tape = std::mem::replace(&mut run.world.tape, Tape::replay(Default::default()));
         (out, tape)
